@@ -43,6 +43,13 @@ Proof.
   eapply hs_trans; [|exact H]. eapply hs_trans; [|apply hs_cancel_all]. apply hs_same. reflexivity.
 Qed.
 
+Lemma handles_adj_refs s a b s' : adj_refs s a b = Acc s' -> handles s' = handles s.
+Proof. unfold adj_refs. intros H. inv_res H; subst s'; reflexivity. Qed.
+Lemma handles_release_entry s ty s' : release_entry s ty = Acc s' -> handles s' = handles s.
+Proof.
+  unfold release_entry. destruct (reg s ty); intros H; [eapply handles_adj_refs; eauto | injection H as <-; reflexivity].
+Qed.
+
 Ltac hs :=
   lazymatch goal with
   | |- handles_shrink ?s0 ?s0 => apply hs_refl
@@ -53,8 +60,21 @@ Ltac hs :=
   | |- handles_shrink ?s0 (set_now _ ?s1) => apply (hs_trans s0 s1); [ | apply hs_same; reflexivity ]; hs
   | |- handles_shrink ?s0 (cancel_slot ?s1 _) => apply (hs_trans s0 s1); [ | apply hs_cancel_slot ]; hs
   | |- handles_shrink ?s0 (set_handles (del _ _) ?s1) => apply (hs_trans s0 s1); [ | eapply hs_del; reflexivity ]; hs
+  | |- handles_shrink ?s0 (set_reg _ ?s1) => apply (hs_trans s0 s1); [ | apply hs_same; reflexivity ]; hs
+  | |- handles_shrink ?s0 (set_rlock _ ?s1) => apply (hs_trans s0 s1); [ | apply hs_same; reflexivity ]; hs
+  | |- handles_shrink ?s0 (set_rpend _ ?s1) => apply (hs_trans s0 s1); [ | apply hs_same; reflexivity ]; hs
   | |- handles_shrink ?s0 (match ?c with _ => _ end) => destruct c; hs
+  | |- handles_shrink ?s0 ?v =>
+      match goal with
+      | H : adj_refs ?s1 _ _ = Acc v |- _ =>
+          apply (hs_trans s0 s1); [ hs | apply hs_same; exact (handles_adj_refs _ _ _ _ H) ]
+      | H : release_entry ?s1 _ = Acc v |- _ =>
+          apply (hs_trans s0 s1); [ hs | apply hs_same; exact (handles_release_entry _ _ _ H) ]
+      end
   end.
+
+Lemma hs_reg_ret s o p k ty r s' : reg_ret s o p k ty r = Acc s' -> handles_shrink s s'.
+Proof. intros H. unfold reg_ret in H. inv_res H; subst s'; hs. Qed.
 
 Definition is_handle_ev (e : event) : bool := match e with EvHandle _ _ _ => true | _ => false end.
 
@@ -66,6 +86,7 @@ Proof.
   all: try solve [ eapply hs_drop_handle; eassumption ].
   all: try solve [ eapply hs_submit; eassumption ].
   all: try solve [ eapply hs_teardown; eassumption ].
+  all: try solve [ eapply hs_reg_ret; eassumption ].
   all: try solve [ match goal with Hs : submit ?s1 _ _ _ _ _ _ _ _ _ _ = Acc ?v0 |- handles_shrink ?s0 _ =>
                      apply (hs_trans s0 s1); [ hs | ]; apply (hs_trans s1 v0); [ eapply hs_submit; exact Hs | hs ] end ].
 Qed.
